@@ -1381,6 +1381,10 @@ class Real(base.SimpleAsn1Type):
                     e -= 1
                 return self.__normalizeBase10((int(value), 10, e))
         elif isinstance(value, Real):
+            if value.isInf:
+                # an infinity has no (mantissa, base, exponent) form
+                return value._value
+
             return tuple(value)
         raise error.PyAsn1Error(
             'Bad real value syntax: %s' % (value,)
